@@ -17,7 +17,7 @@ META = {
              "non-trivial = (by the model) the last-ending operation of some (sub-)circuit is not a relation leaf or the earliest-starting one is not a head"),
     "assumptions": ["reference model qv/model.py; span computed from the library's own reported operation times at the same step as well"],
     "floors": {
-        "quick": {"rereads_after_temporary_override": 12000, "growth_first_add_rereads": 6000, "growth_of_empty_block_rereads": 500, "durations_compared": 40000, "growth_rereads": 3000, "forms_compared": 20000, "relations_to_former_blocks_checked": 300, "group_follower_checks": 2000, "registry_reassignments": 10000, "follower_checks": 5000, "empty_circuits": 1000, "label_non-leaf-last-end": 1000, "label_early-start": 3000, "label_nested-block-early-start": 500},
+        "quick": {"late_heads_on_group_related_blocks": 1000, "rereads_after_temporary_override": 12000, "growth_first_add_rereads": 6000, "growth_of_empty_block_rereads": 500, "durations_compared": 40000, "growth_rereads": 3000, "forms_compared": 20000, "relations_to_former_blocks_checked": 300, "group_follower_checks": 2000, "registry_reassignments": 10000, "follower_checks": 5000, "empty_circuits": 1000, "label_non-leaf-last-end": 1000, "label_early-start": 3000, "label_nested-block-early-start": 500},
         "thorough": {"durations_compared": 500000, "follower_checks": 50000, "empty_circuits": 10000},
     },
 }
@@ -253,6 +253,22 @@ def check_program(prog: Dict[str, Any], acc: Acc, flags=None):
                     acc.finding("follower-overlaps-group", f"an operation that follows a group of operations ({form}) starts before all of them have ended", case,
                                 {"start": sh_f[k][0], "group_end": last, "group_size": len(members)})
                     break
+            # ---- growth of a sub-circuit that carries a GROUP relation (the second copy of an unrolled block that holds a sub-circuit): a
+            #      new head operation on an unused qubit is added after the listing above; where it starts may not depend on whether the
+            #      circuit is listed once more (seeded change C05-r15: handed group links were no longer recognised, the late head stayed
+            #      unrelated until the next listing)
+            if form == "unrolled":
+                grouped = [c for c in circ.composite_operations if snap.link_info(c)["kind"] == "multi" and snap.walk_leaves(c)]
+                if grouped:
+                    late = bp.make_op({"k": "Wait", "q": [17], "dur": 3}, ctx, [built_f.top])
+                    grouped[0].add(late)
+                    acc.count("late_heads_on_group_related_blocks")
+                    before_listing = snap.raw_value(lambda: (float(late.start_time), float(circ.duration)))
+                    circ.operations
+                    after_listing = snap.raw_value(lambda: (float(late.start_time), float(circ.duration)))
+                    if abs(before_listing[0] - after_listing[0]) > TOL or abs(before_listing[1] - after_listing[1]) > TOL:
+                        acc.finding("growth/group-related-block", "start of a head operation added late to a group-related sub-circuit (or the circuit's duration) changes when the "
+                                    "operations are listed once more", case, {"before_listing": before_listing, "after_listing": after_listing})
     memo_shadow.drain()
 
 
